@@ -274,8 +274,8 @@ def run(ctx):
                 lab = None
                 try:
                     lab = check_complex(ctx, case)
-                except Violation as v:
-                    ctx.fail_now(v, case)
+                except Exception as v:
+                    ctx.fail_exc(v, case)
                 if lab is not None:
                     ctx.count(1, labels=(f"complex:{cls}",), nontrivial=1,
                               sample=case if idx % 997 == 3 else None)
